@@ -862,6 +862,9 @@ func c08Emit(w *emit.Writer, res *c08Result) {
 	}
 }
 
+// c08LongHost is a 180-character host name part (labels of 20 characters).
+var c08LongHost = strings.TrimSuffix(strings.Repeat("a123456789bcdefghij.", 9), ".")
+
 func c08ms(x int) time.Duration { return time.Duration(x) * time.Millisecond }
 
 // decision table: one thread, a pre-made lock file, a context
@@ -1011,7 +1014,12 @@ func c08Scenarios(tier string, r *rand.Rand) []c08Scenario {
 				{Tid: 4, Pid: 2, Name: "Issue Cert/Ex Ample:8443", StartAt: c08ms(300), HoldFor: c08ms(1500)},
 				{Tid: 5, Name: "../a\\b", StartAt: c08ms(350), HoldFor: c08ms(1500)},
 				{Tid: 6, Name: "issue_cert_example.com", StartAt: c08ms(400), HoldFor: c08ms(200), CancelAt: long},
-				{Tid: 7, Name: "issue_cert_example.co", StartAt: c08ms(450), HoldFor: c08ms(1000)}},
+				{Tid: 7, Name: "issue_cert_example.co", StartAt: c08ms(450), HoldFor: c08ms(1000)},
+				// long names (203 characters) that differ only in their last characters, and one that differs early
+				{Tid: 8, Name: "issue_cert_" + c08LongHost + ".example.com", StartAt: c08ms(120), HoldFor: c08ms(1500)},
+				{Tid: 9, Pid: 3, Name: "issue_cert_" + c08LongHost + ".example.net", StartAt: c08ms(220), HoldFor: c08ms(1500)},
+				{Tid: 10, Name: "issue_cert_" + c08LongHost + ".example.nex", StartAt: c08ms(320), HoldFor: c08ms(1500)},
+				{Tid: 11, Name: "issue_cert_b" + c08LongHost[1:] + ".example.com", StartAt: c08ms(420), HoldFor: c08ms(1500)}},
 			Horizon: c08ms(4500)},
 		// a live holder that is not scheduled for 11 s (SIGSTOP ... SIGCONT; a paused VM, a long stall)
 		// cannot refresh its lock file: the waiter takes the lock while the holder still holds it
